@@ -9,48 +9,18 @@
 #include "src/secp256k1.c"
 #include "post.h"
 
-/* content octets of the DER INTEGER for a 32-byte big-endian value v: returns the length, writes to c[33] */
-static size_t der_int(unsigned char *c, const unsigned char *v) {
-    size_t z = 0, i, n;
-    while (z < 32 && v[z] == 0) z++;
-    if (z == 32) { c[0] = 0; return 1; }
-    n = 0;
-    if (v[z] >= 0x80) c[n++] = 0;
-    for (i = z; i < 32; i++) c[n++] = v[i];
-    return n;
-}
-
-void h_static_state_sig(void) {
+/* (The DER serializer - the function of the measured `static` scratch-array mutant - has its full
+ * specification unit in C03.der.serialize, which is tagged C20 for exactly this reason; here the compact
+ * encoding is the cheap second witness of the same idiom.) */
+void h_static_state_compact(void) {
     secp256k1_context ctx;
     INPUT(secp256k1_ecdsa_signature, sig);
-    INPUT(size_t, cap); INPUT(size_t, k);
-    INPUT_ARR(unsigned char, ss_out, 80);
-    unsigned char out0[80], rb[32], sb[32], cr[33], cs[33], exp[80], c64[64];
-    size_t lr, ls, need, size, i; int ret;
+    INPUT(size_t, k);
+    unsigned char c64[64]; int ret;
     verif_ctx_init(&ctx);
-    __CPROVER_assume(cap <= 80 && k < 80);
-    memcpy(out0, ss_out, 80);
-    for (i = 0; i < 32; i++) { rb[i] = sig.data[31 - i]; sb[i] = sig.data[63 - i]; }
-    lr = der_int(cr, rb); ls = der_int(cs, sb);
-    need = 6 + lr + ls;
-    for (i = 0; i < 80; i++) exp[i] = 0;
-    exp[0] = 0x30; exp[1] = (unsigned char)(4 + lr + ls); exp[2] = 0x02; exp[3] = (unsigned char)lr;
-    for (i = 0; i < 33; i++) if (i < lr) exp[4 + i] = cr[i];
-    exp[4 + lr] = 0x02; exp[5 + lr] = (unsigned char)ls;
-    for (i = 0; i < 33; i++) if (i < ls) exp[6 + lr + i] = cs[i];
-
-    size = cap;
-    ret = secp256k1_ecdsa_signature_serialize_der(&ctx, ss_out, &size, &sig);
-    __CPROVER_assert(g_illegal == 0 && g_error == 0, "C20 static_state der: no callback");
-    __CPROVER_assert(ret == (cap >= need), "C20 static_state der: succeeds iff the buffer holds the DER encoding of (r,s), for every initial static state");
-    __CPROVER_assert(size == need, "C20 static_state der: reported length is the length of the DER encoding of (r,s)");
-    if (ret == 1 && k < need) __CPROVER_assert(ss_out[k] == exp[k], "C20 static_state der: output bytes are the DER encoding of (r,s), for every initial static state");
-    if (ret == 0 || k >= need) __CPROVER_assert(ss_out[k] == out0[k], "C20 static_state der: nothing written beyond the encoding / on failure");
-    if (ret == 1 && need == 8) REACH("der of r = s = 0");
-    if (ret == 1 && need == 72) REACH("der with two padded 33-byte integers");
-    if (ret == 0) REACH("der buffer too small");
-
+    __CPROVER_assume(k < 64);
     ret = secp256k1_ecdsa_signature_serialize_compact(&ctx, c64, &sig);
-    __CPROVER_assert(ret == 1 && g_illegal == 0, "C20 static_state compact: succeeds");
-    if (k < 64) __CPROVER_assert(c64[k] == (k < 32 ? rb[k] : sb[k - 32]), "C20 static_state compact: output is r||s big-endian, for every initial static state");
+    __CPROVER_assert(ret == 1 && g_illegal == 0 && g_error == 0, "C20 static_state compact: succeeds without callback");
+    __CPROVER_assert(c64[k] == (k < 32 ? sig.data[31 - k] : sig.data[95 - k]), "C20 static_state compact: output is r||s big-endian, for every initial static state");
+    if (sig.data[0] != 0) REACH("compact serialize");
 }
